@@ -81,6 +81,14 @@ def run_config(cfg, res, relay_oracle=None, extra_weights=None):
   rl = rh.boot_relay({'RELAY_METHOD': 'constant', 'DESTINATIONS': '127.0.0.1:2004:a', 'MAX_QUEUE_SIZE': cfg['maxq'],
                       'USE_FLOW_CONTROL': cfg['fc'], 'QUEUE_LOW_WATERMARK_PCT': cfg['low'], 'TIME_TO_DEFER_SENDING': 0.0001})
   ns = rl.ns
+  import carbon.client as _client
+  exp_hard = cfg['maxq'] * ns.settings.MAX_QUEUE_SIZE_HARD_PCT if cfg['fc'] else cfg['maxq']
+  exp_low = cfg['maxq'] * cfg['low']
+  if abs(_client.SEND_QUEUE_HARD_MAX - exp_hard) > 1e-9 or abs(_client.SEND_QUEUE_LOW_WATERMARK - exp_low) > 1e-9:
+    res.violation(('relay/' if relay_oracle else '') + 'derived-limits',
+                  'MAX_QUEUE_SIZE=%s USE_FLOW_CONTROL=%s QUEUE_LOW_WATERMARK_PCT=%s MAX_QUEUE_SIZE_HARD_PCT=%s give hard limit %s / low watermark %s '
+                  'by the documentation, carbon uses %s / %s' % (cfg['maxq'], cfg['fc'], cfg['low'], ns.settings.MAX_QUEUE_SIZE_HARD_PCT,
+                                                                exp_hard, exp_low, _client.SEND_QUEUE_HARD_MAX, _client.SEND_QUEUE_LOW_WATERMARK))
   r = gen.rng(cfg['seed'], PROPERTY, cfg['name'])
   vs = variants(r, cfg['tier'])
   L = 4 if cfg['tier'] == 'quick' else 5
